@@ -116,6 +116,11 @@ func c19History(r *report.R, id string) {
 	g := newHistGen(h, r.Rand(id))
 	n := g.n
 	nblocks := 25 + r.Rand(id+"/len").Intn(r.Pick(60, 140))
+	if r.Rand(id+"/focus").Intn(4) == 0 {
+		// one history in four dwells on the Haqq modules with the richest genesis state: vesting
+		// accounts, liquid denoms and their token pairs, DAO holders (also of several denoms)
+		g.focus = []int{21, 22, 23, 24, 25, 26, 27}
+	}
 	for b := 0; b < nblocks; b++ {
 		g.block()
 	}
